@@ -330,6 +330,8 @@ def arc(ck, sh, mm, n):
         A, R = o['A'], o['R']
         se = A.segends
         g = [('n+1 segment ends', z3.BoolVal(len(se) == n + 1))]
+        if len(se) != n + 1:
+            return g
         g.append(('ends lie on the circle x^2+z^2=R^2 in the plane y=0', z3.And(
             *[z3.And(eq_term(p[0] * p[0] + p[2] * p[2], R * R), eq_term(p[1], 0.0)) for p in se])))
         # uniform angular steps from ang1 to ang2, measured from X towards Z: the code's cos/sin arguments
@@ -344,6 +346,17 @@ def arc(ck, sh, mm, n):
         return g
 
     def replay(c, gn, out):
+        if gn == 'n+1 segment ends':
+            # the number of ends depends on rounding somewhere: look for a witness among the usual spans and all counts 3..200
+            for a1_, a2_ in ((c['a1'], c['a2']), (0.0, 360.0), (0.0, 90.0), (30.0, 150.0), (0.0, 270.0), (-90.0, 90.0), (10.0, 130.0)):
+                for n_ in [n] + list(range(3, 201)):
+                    try:
+                        A = mm.Arc(n_, 1.0, a1_, a2_, 0.001)
+                    except ValueError:
+                        continue
+                    if len(A.segends) != n_ + 1:
+                        return ('C13:arc:count', 'Arc(%d, 1.0, %r, %r): %d segment ends instead of %d' % (n_, a1_, a2_, len(A.segends), n_ + 1), dict(kind='arc-count'))
+            return None
         try:
             A = mm.Arc(n, c['R'], c['a1'], c['a2'], c['r'])
         except ValueError:
